@@ -3,8 +3,11 @@ package checks
 import (
 	"bytes"
 	"context"
+	"encoding/binary"
 	"errors"
 	"fmt"
+	"github.com/tonistiigi/fsutil/util"
+	"io"
 	"os"
 	"path/filepath"
 	"sync"
@@ -33,6 +36,10 @@ type c06Case struct {
 	// whatever a failed call leaves behind in process-wide state (buffer pools)
 	// must not leak into the next one
 	AbortedBefore int `json:"aborted_before,omitempty"`
+	// Proto: the sender talks through the library's own length-prefixed byte
+	// stream (util.NewProtoStream over pipes); a bridge with an independent
+	// framing codec connects it to the reference receiver
+	Proto bool `json:"proto,omitempty"`
 }
 
 var c06TreeCfg = h.TreeCfg{
@@ -83,10 +90,86 @@ func genC06(t *rapid.T) *c06Case {
 	if rapid.IntRange(0, 5).Draw(t, "slow") == 0 {
 		sc.ReadDelayUS = rapid.SampledFrom([]int{50, 200}).Draw(t, "delay")
 	}
+	// (with an illegal request the call fails while the single-threaded peer may be
+	// blocked writing: that is C04's listed mutual-send finding, not judged here)
+	// and only below the sender's pipeline depth (128+4): a peer that stops reading
+	// while it has more requests outstanding than that blocks both sides by design)
+	if sc.Eager && sc.Illegal == "" && nreq <= 100 && rapid.IntRange(0, 2).Draw(t, "inline") == 0 {
+		sc.Inline = true
+	}
 	if rapid.IntRange(0, 3).Draw(t, "aborted") == 0 {
 		c.AbortedBefore = rapid.IntRange(1, 5).Draw(t, "abortat")
 	}
+	if rapid.IntRange(0, 3).Draw(t, "proto") == 0 {
+		c.Proto = true
+		// file sizes whose last DATA frame comes out at the pooled buffer size, give or take
+		for i := range c.Tree.Nodes {
+			if n := &c.Tree.Nodes[i]; n.Kind == h.KFile && n.LinkTo == "" && rapid.Bool().Draw(t, fmt.Sprintf("edge%d", i)) {
+				n.Size = rapid.SampledFrom([]int{0, 32768}).Draw(t, fmt.Sprintf("edgebase%d", i)) + rapid.IntRange(32748, 32772).Draw(t, fmt.Sprintf("edgesize%d", i))
+			}
+		}
+	}
 	return c
+}
+
+// c06SendOverProtoStream runs Send over util.NewProtoStream on two pipes and
+// bridges the byte stream to the harness pair with its own framing codec
+// (4-byte big-endian length, then the packet).
+func c06SendOverProtoStream(pair *h.Pair, f fsutil.FS, prog func(int, bool)) (err error) {
+	toBridgeR, toBridgeW := io.Pipe()
+	toSenderR, toSenderW := io.Pipe()
+	stream := util.NewProtoStream(pair.S.Context(), toSenderR, toBridgeW)
+	var bw sync.WaitGroup
+	bw.Add(1)
+	go func() { // sender -> receiver
+		defer bw.Done()
+		var hd [4]byte
+		for {
+			if _, e := io.ReadFull(toBridgeR, hd[:]); e != nil {
+				return
+			}
+			body := make([]byte, binary.BigEndian.Uint32(hd[:]))
+			if _, e := io.ReadFull(toBridgeR, body); e != nil {
+				return
+			}
+			var p types.Packet
+			if e := p.UnmarshalVT(body); e != nil {
+				pair.S.Break(fmt.Errorf("verif: undecodable frame from the sender: %v", e))
+				toBridgeR.CloseWithError(e)
+				return
+			}
+			if e := pair.S.SendMsg(&p); e != nil {
+				toBridgeR.CloseWithError(e)
+				return
+			}
+		}
+	}()
+	go func() { // receiver -> sender
+		for {
+			var p types.Packet
+			if e := pair.S.RecvMsg(&p); e != nil {
+				toSenderW.CloseWithError(io.EOF)
+				return
+			}
+			body, _ := p.MarshalVT()
+			var hd [4]byte
+			binary.BigEndian.PutUint32(hd[:], uint32(len(body)))
+			if _, e := toSenderW.Write(append(hd[:], body...)); e != nil {
+				return
+			}
+		}
+	}()
+	func() {
+		defer func() {
+			if r := recover(); r != nil {
+				err = fmt.Errorf("Send panicked: %v", r)
+			}
+		}()
+		err = fsutil.Send(pair.S.Context(), stream, f, prog)
+	}()
+	toBridgeW.Close()
+	bw.Wait()
+	return err
 }
 
 // c06AbortedSend runs a Send that fails in the middle of file data: three
@@ -218,11 +301,18 @@ func c06Check(env *h.Env, c *c06Case) error {
 	wg.Add(2)
 	go func() {
 		defer wg.Done()
-		sendErr = fsutil.Send(pair.S.Context(), pair.S, f, func(n int, last bool) {
+		progFn := func(n int, last bool) {
 			pmu.Lock()
 			prog = append(prog, h.ProgressCall{N: n, Last: last})
 			pmu.Unlock()
-		})
+		}
+		if !c.Proto {
+			sendErr = fsutil.Send(pair.S.Context(), pair.S, f, progFn)
+			pair.S.Returned(sendErr)
+			return
+		}
+		env.Class("library-byte-stream")
+		sendErr = c06SendOverProtoStream(pair, f, progFn)
 		pair.S.Returned(sendErr)
 	}()
 	go func() {
@@ -254,6 +344,9 @@ func c06Check(env *h.Env, c *c06Case) error {
 	}
 	if c.Script.Eager {
 		env.Class("eager")
+	}
+	if c.Script.Inline {
+		env.Class("single-threaded-receiver")
 	}
 	multi := 0
 	for _, id := range rr.Requested {
